@@ -18,7 +18,7 @@ E = enums
 
 def plan(tier):
     return {
-        'level': 'exploration', 'shards': 16, 'budget_s': 80 if tier == 'quick' else 900,
+        'level': 'exploration', 'shards': 16, 'budget_s': 120 if tier == 'quick' else 900,
         'rule': 'every encoding produced by the C01 generators (primitive grid, probed classes, whole '
                 'messages) is validated by the independent TTLV validator; primitive encodings are compared '
                 'byte for byte with the reference encoder; every response a real KmipSession hands to '
@@ -39,7 +39,7 @@ def cases(tier, seed):
     keys = [k for k in S.classes if S.params.get(k) and k.split('.')[-1] not in codec.PRIMS]
     for i in range(0, len(keys), 8):
         cs.append({'classes': keys[i:i + 8]})
-    n = 24 if tier == 'quick' else 320
+    n = 96 if tier == 'quick' else 480
     cs += [{'session': i} for i in range(n)]
     return cs
 
